@@ -55,7 +55,8 @@ func (s *Shard) Restore(r io.Reader, ignoreErrors bool) (int, int, error) {
 			data = data[:sz]
 		}
 
-		_, err = r.Read(data)
+		// a single Read may return less than requested
+		_, err = io.ReadFull(r, data)
 		if err != nil {
 			return count, failCount, err
 		}
